@@ -29,6 +29,7 @@ func scenarios(tier string) []sched.Scenario {
 	mk := func() []oxc.Oracle { return []oxc.Oracle{&oxc.ElectionOracle{}} }
 	specs := []oxc.ScenarioSpec{
 		{Name: "spurious-failover", Fault: "spurious-failover", Clients: 1, PerCli: 1, SyncData: true},
+		{Name: "lost-newterm-response", Fault: "lost-newterm-response", Clients: 2, PerCli: 1, SyncData: true},
 		{Name: "leader-crash", Fault: "leader-crash", Clients: 1, PerCli: 1, SyncData: true},
 		{Name: "coord-crash", Fault: "coord-crash", Clients: 1, PerCli: 1, SyncData: true},
 		{Name: "lost-become-leader-response", Fault: "lost-become-leader-response", Clients: 1, PerCli: 1, SyncData: true},
